@@ -22,6 +22,7 @@ def conn_menu(w, n, total):
             out += [rng(sig("t"), None, 4), cat(sig("v"), sig("v")), cat(rng(sig("t"), 4, 6), sig("v"))]
         elif width == 6:
             out += [sig("t"), cat(rng(sig("t"), 3, 6), rng(sig("t"), 0, 3)), cat(sig("v"), sig("v"), sig("v"))]
+    out += [nc("N"), nc("NN", "ncnamed")]
     return out
 
 
@@ -45,6 +46,10 @@ def design(desc):
     kind, n, w, ia, ib, k = desc
     m = conn_menu(w, n, 6)
     ea, eb = m[ia], m[ib]
+    if ea[0] == "nc":
+        ea = nc(ea[1] + "a", ea[2] and ea[2] + "_a")
+    if eb[0] == "nc":
+        eb = nc(eb[1] + "b", eb[2] and eb[2] + "_b")
     exts, mods = {}, {}
     decls = []
     for nm, ww in [("s", 1), ("v", 2), ("t", 6)]:
